@@ -90,6 +90,9 @@ def check(ctx):
     concurrent_stage(ctx, thorough)
     n = 200000 if thorough else 20000
     for proto, pairs in fuzzrun.all_protocols(ctx, thorough, n, False, 1):
+        kept = []
         for job, r in pairs:
             judge(ctx, proto, job, r)
-        sample(ctx, proto, pairs)
+            if len(kept) < 3000:
+                kept.append((job, r))
+        sample(ctx, proto, kept)
